@@ -6,6 +6,7 @@ package main
 
 import (
 	"encoding/json"
+	"hash/fnv"
 	"math/rand"
 	"os"
 	"strconv"
@@ -33,6 +34,12 @@ var worlds = []world{
 var spaces = []string{" ", "  ", "\t", "\n", " \t ", "\r\n"}
 var blanks = []string{"", " ", "   ", "\t", " \t\n", "\n"}
 
+func keyOf(raw []byte) int64 {
+	h := fnv.New32a()
+	h.Write(raw)
+	return int64(h.Sum32())
+}
+
 type outcome struct {
 	Err   bool       `json:"err"`
 	Out   [][]string `json:"out"`            // [token, network suffix]
@@ -49,9 +56,10 @@ func main() {
 	seed := verifkit.Seed()
 	verifkit.EachCase(func(i int, raw json.RawMessage) {
 		c := verifkit.Decode[struct{ Base, Ovr []string }](raw)
+		caseKey := keyOf(raw) // seeded choices depend on the case itself, not on its position: a replayed case repeats them
 		res := make([]outcome, 0, reps)
 		for k := 0; k < reps; k++ {
-			r := rand.New(rand.NewSource(seed*1000003 + int64(i)*31 + int64(k)))
+			r := rand.New(rand.NewSource(seed*1000003 + caseKey*31 + int64(k)))
 			w := worlds[0]
 			if k > 0 {
 				w = worlds[r.Intn(len(worlds))]
@@ -106,7 +114,7 @@ func main() {
 				return out
 			}
 			base, ovr := mk(c.Base), mk(c.Ovr)
-			proto := []string{"tcp", "udp"}[(i+k)%2]
+			proto := []string{"tcp", "udp"}[(int(caseKey%2)+k)%2]
 			o := outcome{Proto: proto, Out: [][]string{}}
 			var addrs []listen.Address
 			var err error
